@@ -170,7 +170,7 @@ static int r_script(const int* ops, int nops, RStack& st, RStack& alt, uint64_t 
         if (op == OP_IF || op == OP_NOTIF) {
             bool v = false;
             if (exec) {
-                if (st.n < 1) return SCRIPT_ERR_UNBALANCED_CONDITIONAL;
+                if (st.n < 1) return SCRIPT_ERR_INVALID_STACK_OPERATION;   // this code base reports a missing IF operand as a stack error
                 const Item& t = st.it[st.n - 1];
                 if (witness_v0 && (flags & F_MINIMALIF)) { if (t.len > 1) return SCRIPT_ERR_MINIMALIF; if (t.len == 1 && t.b[0] != 1) return SCRIPT_ERR_MINIMALIF; }
                 v = r_truth(t); if (op == OP_NOTIF) v = !v;
